@@ -64,27 +64,50 @@ def req_C01(r, tier):
         out.append(("fe.cnegate", "fe.cnegate %s %d" % (H(a), c)))
     # raw limb level (translation validation + unreduced representations)
     kinds = ["max", "zero", "rand", "edge", "p", "rand", "edge"]
+    # fel*  : serial backends, limbs up to the documented headroom (2^54 / b<1.75..2.5), compared limb-exactly with the
+    #         translated kernels AND at value level against the python specification (checks.raw_value_ok)
+    # felv* : value level on serial AND fiat; inputs inside fiat's tight (add/sub/neg) resp. loose (mul/square) bounds
     for i in range(sz(tier, 150, 5000)):
         ka, kb = r.choice(kinds), r.choice(kinds)
         a, b = limbs51(r, 54, ka), limbs51(r, 54, kb)
         for op in ("mul", "sub"):
             out.append(("fel51.%s:%s,%s" % (op, ka, kb), "fel51.%s %s %s" % (op, ilst(a), ilst(b))))
-            out.append(("felv51.%s" % op, "felv51.%s %s %s" % (op, ilst(a), ilst(b))))
         a2, b2 = limbs51(r, 53, ka), limbs51(r, 53, kb)
         out.append(("fel51.add", "fel51.add %s %s" % (ilst(a2), ilst(b2))))
-        out.append(("felv51.add", "felv51.add %s %s" % (ilst(a2), ilst(b2))))
         for op in ("neg", "square", "square2", "as_bytes"):
             out.append(("fel51.%s:%s" % (op, ka), "fel51.%s %s" % (op, ilst(a))))
-        out.append(("felv51.square", "felv51.square %s" % ilst(a)))
-        out.append(("fel51.reduce", "fel51.reduce %s" % ilst([r.below(1 << 64) if ka != "max" else (1 << 64) - 1 for _ in range(5)])))
         out.append(("fel51.pow2k", "fel51.pow2k %s %d" % (ilst(a), 1 + r.below(4))))
-        a, b = limbs26(r, 1.5, ka), limbs26(r, 1.5, kb)
-        for op in ("mul", "sub", "add"):
-            out.append(("fel26.%s:%s,%s" % (op, ka, kb), "fel26.%s %s %s" % (op, ilst(a), ilst(b))))
-            out.append(("felv26.%s" % op, "felv26.%s %s %s" % (op, ilst(a), ilst(b))))
-        for op in ("neg", "square", "square2", "as_bytes"):
+        tl = [min(x, (1 << 51) + (1 << 47)) for x in limbs51(r, 52, ka)]
+        tb = [min(x, (1 << 51) + (1 << 47)) for x in limbs51(r, 52, kb)]
+        for op in ("add", "sub"):
+            out.append(("felv51.%s:%s" % (op, ka), "felv51.%s %s %s" % (op, ilst(tl), ilst(tb))))
+        out.append(("felv51.neg", "felv51.neg %s" % ilst(tl)))
+        out.append(("felv51.as_bytes", "felv51.as_bytes %s" % ilst(tl)))
+        la_, lb_ = limbs51(r, 52, ka), limbs51(r, 52, kb)
+        out.append(("felv51.mul:%s,%s" % (ka, kb), "felv51.mul %s %s" % (ilst(la_), ilst(lb_))))
+        out.append(("felv51.square", "felv51.square %s" % ilst(la_)))
+        out.append(("felv51.square2", "felv51.square2 %s" % ilst(la_)))
+        out.append(("felv51.pow2k", "felv51.pow2k %s %d" % (ilst(la_), 1 + r.below(4))))
+        a, b = limbs26(r, 5.65, ka), limbs26(r, 3.36, kb)
+        out.append(("fel26.mul:%s,%s" % (ka, kb), "fel26.mul %s %s" % (ilst(a), ilst(b))))
+        for op in ("square", "square2"):
+            out.append(("fel26.%s:%s" % (op, kb), "fel26.%s %s" % (op, ilst(b))))
+        out.append(("fel26.pow2k", "fel26.pow2k %s %d" % (ilst(b), 1 + r.below(4))))
+        a, b = limbs26(r, 4.0, ka), limbs26(r, 4.0, kb)
+        out.append(("fel26.sub:%s,%s" % (ka, kb), "fel26.sub %s %s" % (ilst(a), ilst(b))))
+        for op in ("neg", "as_bytes"):
             out.append(("fel26.%s:%s" % (op, ka), "fel26.%s %s" % (op, ilst(a))))
-        out.append(("fel26.pow2k", "fel26.pow2k %s %d" % (ilst(a), 1 + r.below(4))))
+        a, b = limbs26(r, 2.0, ka), limbs26(r, 2.0, kb)
+        out.append(("fel26.add", "fel26.add %s %s" % (ilst(a), ilst(b))))
+        tl, tb = limbs26(r, 1.05, ka), limbs26(r, 1.05, kb)
+        for op in ("add", "sub"):
+            out.append(("felv26.%s" % op, "felv26.%s %s %s" % (op, ilst(tl), ilst(tb))))
+        out.append(("felv26.neg", "felv26.neg %s" % ilst(tl)))
+        out.append(("felv26.as_bytes", "felv26.as_bytes %s" % ilst(tl)))
+        la_, lb_ = limbs26(r, 2.0, ka), limbs26(r, 2.0, kb)
+        out.append(("felv26.mul", "felv26.mul %s %s" % (ilst(la_), ilst(lb_))))
+        out.append(("felv26.square", "felv26.square %s" % ilst(la_)))
+        out.append(("felv26.square2", "felv26.square2 %s" % ilst(la_)))
     for la, a in pool:
         out.append(("fel51.from_bytes:" + la, "fel51.from_bytes " + H(a)))
         out.append(("fel26.from_bytes:" + la, "fel26.from_bytes " + H(a)))
